@@ -1477,8 +1477,8 @@ class MPO:
         # Left boundary: take only row 0
         tensors[0] = np.transpose(tensor.copy(), (2, 3, 0, 1))[:, :, 0:1, :].astype(np.complex128)
 
-        # Right boundary: take only col 3
-        tensors[-1] = np.transpose(tensor.copy(), (2, 3, 0, 1))[:, :, :, 3:4].astype(np.complex128)
+        # Right boundary: take only col 3 (for a single site: row 0 and col 3, i.e. the on-site term)
+        tensors[-1] = tensors[-1][:, :, :, 3:4]
 
         mpo = cls()
         mpo.tensors = tensors
